@@ -222,6 +222,14 @@ func (in *interpreter) symBinop(op token.Token, t types.Type, x, y value) (value
 	_, ys := y.(*Term)
 	_, xss := x.(symstr)
 	_, yss := y.(symstr)
+	_, xo := x.(opaqueStr)
+	_, yo := y.(opaqueStr)
+	if xo || yo {
+		if op == token.ADD {
+			return opaqueStr{"concat"}, true
+		}
+		panic(unsupported("comparison of a string formatted from symbolic values"))
+	}
 	if !xs && !ys && !xss && !yss {
 		return nil, false
 	}
@@ -458,6 +466,16 @@ func (in *interpreter) symEquals(t types.Type, x, y value) value {
 			return true
 		}
 		return in.symEquals(xv.t, xv.v, yv.v)
+	case uniqH:
+		yv, ok := y.(uniqH)
+		if !ok {
+			return false
+		}
+		return in.symEquals(xv.t, xv.v, yv.v)
+	case *value:
+		if _, ok := y.(uniqH); ok {
+			return false
+		}
 	}
 	if xb, ok := bytesOfStr(x); ok {
 		yb, ok2 := bytesOfStr(y)
